@@ -1230,7 +1230,24 @@ def step2(line):
             sents = ENC.encode_msg(m, talker_id='AIVDM', radio_channel='B')
         except Exception:  # noqa
             return 'SKIP'          # not re-encodable: reported by the to_bitarray part of the check
-        return canon_msg(pyais.decode(*sents))
+        fam = {'decode(sentences as emitted)': _try(lambda: canon_msg(pyais.decode(*sents)))}
+        if len(sents) > 1:
+            fam['decode(sentences reversed)'] = _try(lambda: canon_msg(pyais.decode(*sents[::-1])))
+            # the re-encoded log read back through ONE queue for the whole run, every message with its sentences in
+            # reverse order (all re-encoded multi-sentence messages share the slot (0, B))
+
+            def through_queue():
+                for x in sents[::-1]:
+                    _CYCLE_Q.put_line(x.encode('ascii'))
+                got = []
+                while True:
+                    g = _CYCLE_Q.get_or_none()
+                    if g is None:
+                        break
+                    got.append(canon_msg(g.decode()))
+                return got[0] if len(got) == 1 else '%d deliveries: %s' % (len(got), got)
+            fam['one long-lived NMEAQueue, sentences reversed'] = _try(through_queue)
+        return _family(fam)
     if cmd == 'reencode':
         return show_bits(getattr(M, p[1]).from_bitarray(parse_bits(p[2])).to_bitarray())
     if cmd == 'create':
@@ -1300,6 +1317,9 @@ def _siblings(lines):
                     pass
         except Exception:  # noqa
             pass
+
+
+_CYCLE_Q = Q.NMEAQueue()
 
 
 def _manual_encode(m, talker, chan):
